@@ -158,23 +158,10 @@ func runCases(r *hx.Run, pki *dialx.PKI, cases []dialx.Case, ids []string) {
 	}
 }
 
-// positions of the all-OK dialogue of a configuration (number of entries of the server log) and the AUTH position
+// positions of the all-OK dialogue of a configuration (script decisions consumed, AUTH steps included) and the AUTH position
 func baseline(pki *dialx.PKI, c dialx.Case) (n, authPos int, err error) {
-	o, err := dialx.Run(c, pki, 3*time.Second)
-	if err != nil {
-		return 0, -1, err
-	}
-	authPos = -1
-	ents := strings.Split(o.Srv, ",")
-	for i, e := range ents {
-		if strings.HasPrefix(e, "AUTH:") && authPos < 0 {
-			authPos = i
-		}
-	}
-	if o.Srv == "-" {
-		return 0, -1, nil
-	}
-	return len(ents), authPos, nil
+	n, authPos, _, err = dialx.Baseline(pki, c)
+	return
 }
 
 func isScram(a string) bool { return strings.HasPrefix(a, "SCRAM") }
@@ -222,6 +209,23 @@ func generate(r *hx.Run, pki *dialx.PKI) []dialx.Case {
 		c0 := base
 		c0.Script = fix(nil)
 		out = append(out, c0)
+		// SCRAM: an empty challenge makes the client send its first message; the deviation then hits the 2nd step of
+		// the exchange (incl. a 235 before any server signature was verified, and a second challenge)
+		if isScram(base.Auth) && pa >= 0 {
+			for _, f := range append(append([]string{}, fails...), "ok", "235", "334b", "334e", "334") {
+				for ti, t := range tails {
+					if ti > 0 && !thorough && !tailed[f] {
+						continue
+					}
+					if base.Kind == "sess" && !thorough && ti > 0 {
+						continue
+					}
+					c := base
+					c.Script = append(append(oks(pa), "334e", f), t...)
+					out = append(out, c)
+				}
+			}
+		}
 		for p := 0; p < n; p++ {
 			for _, f := range fails {
 				for ti, t := range tails {
